@@ -177,8 +177,9 @@ class Not(Matcher):
         self.matcher = matcher
 
     def build_description(self, transformation):
-        transformation.negative = True
-        return self.matcher.build_description(transformation)
+        return self.matcher.build_description(
+            MatcherDescriptionTransformer(conjugate=transformation.conjugate, negative=not transformation.negative)
+        )
 
     def matches(self, actual):
         result = self.matcher.matches(actual)
